@@ -5,6 +5,7 @@ A slice is a list of *regions* of one source file.  Each region is found by a st
 
   ("line",)            the start line only
   ("block",)           from the start line to the line closing the first `{` opened on/after it
+  ("enclosing",)       from the start line to the end of the block that contains it
   ("until", regex)     up to, excluding, the first later line matching regex
   ("through", regex)   up to and including the brace-matched block that starts at the first
                        later line matching regex
@@ -101,12 +102,26 @@ def _fn_range(lines, masked_lines, fn_re):
     return hits[0], _block_end(masked_lines, hits[0])
 
 
-def find_region(text, within, start, end):
+def _enclosing_end(masked_lines, start_idx):
+    """index of the last line before the `}` that closes the block containing line start_idx"""
+    depth = 0
+    for k in range(start_idx, len(masked_lines)):
+        for ch in masked_lines[k]:
+            if ch == "{":
+                depth += 1
+            elif ch == "}":
+                depth -= 1
+                if depth < 0:
+                    return k - 1
+    raise LostAnchor("enclosing block not closed")
+
+
+def find_region(text, within, start, end, pick=None):
     lines = text.split("\n")
     masked = _mask(text).split("\n")
     lo, hi = (0, len(lines) - 1) if within is None else _fn_range(lines, masked, within)
     hits = [k for k in range(lo, hi + 1) if re.search(start, lines[k])]
-    if len(hits) != 1:
+    if len(hits) != 1 and not (pick == "first" and hits):
         raise LostAnchor(f"start /{start}/ matched {len(hits)} lines in /{within}/")
     a = hits[0]
     kind = end[0]
@@ -114,6 +129,8 @@ def find_region(text, within, start, end):
         b = a
     elif kind == "block":
         b = _block_end(masked, a)
+    elif kind == "enclosing":
+        b = _enclosing_end(masked, a)
     elif kind == "until":
         later = [k for k in range(a + 1, hi + 1) if re.search(end[1], lines[k])]
         if not later:
@@ -137,7 +154,10 @@ def cut_slice(text, sl):
     glue = sl.get("between", [])
     for idx, rg in enumerate(sl["regions"]):
         try:
-            a, b, body = find_region(text, sl.get("within"), rg["start"], rg["end"])
+            a, b, body = find_region(text, sl.get("within"), rg["start"], rg["end"], rg.get("pick"))
+            for pat in rg.get("must_not", []):
+                if re.search(pat, _mask(body)):
+                    raise LostAnchor(f"region shape changed: /{pat}/ occurs in it")
         except LostAnchor as e:
             raise LostAnchor(f"{sl['name']}: {e}")
         if rg.get("inner"):
@@ -173,7 +193,7 @@ SLICES = [
         "file": "chess/mod.rs",
         "within": r"^\s*pub fn get_pgn\(&self\) -> String",
         "header": "impl Game { pub(crate) fn verif_pgn_step(i: usize, _move: &String, s: &mut String)",
-        "regions": [{"start": r"^\s*for \(i, _move\) in moves\.iter\(\)\.enumerate\(\) \{", "end": ("block",), "inner": True}],
+        "regions": [{"start": r"^\s*for \(i, _move\) in moves\.iter\(\)\.enumerate\(\) \{", "end": ("block",), "inner": True, "must_not": [r"\bfor\b", r"\bwhile\b", r"\bloop\b"]}],
         "post": "}",
         "drops": "the collect() of the per-move texts (Move::pgn_notation, C20's own contract), String::new(), the loop header",
     },
@@ -281,7 +301,7 @@ SLICES = [
         "file": "chess/mod.rs",
         "within": r"^\s*pub fn get_moves\(",
         "header": "impl Game { pub(crate) fn verif_gen_body(&mut self, row: i8, col: i8, mut push: impl FnMut(Move))",
-        "regions": [{"start": r"^\s*for col in 0\.\.8 \{", "end": ("block",), "inner": True}],
+        "regions": [{"start": r"^\s*let pos = Position::new_assert\(row, col\);", "end": ("enclosing",), "must_not": [r"\bfor\b", r"\bwhile\b", r"\bloop\b"]}],
         "post": "}",
         "drops": "moves.clear(), the king_exists early return, the closure definition, the two `for row/col in 0..8` headers",
     },
@@ -290,7 +310,7 @@ SLICES = [
         "file": "chess/mod.rs",
         "within": r"^\s*pub fn get_moves\(",
         "header": "impl Game { pub(crate) fn verif_gen_block(&mut self, mut push: impl FnMut(Move))",
-        "regions": [{"start": r"^\s*for row in 0\.\.8 \{", "end": ("block",)}],
+        "regions": [{"start": r"^\s*for (row|col) in 0\.\.8 \{", "end": ("block",), "pick": "first"}],
         "post": "}",
         "drops": "moves.clear(), the king_exists early return, the closure definition (push_unchecked into the 256-slot buffer)",
     },
@@ -310,7 +330,7 @@ SLICES = [
         "header": "impl Game { pub(crate) fn verif_filter_body(&mut self, moves: &mut ArrayVec<Move, 256>, index: usize, mut keep_index: usize, "
                   "is_king_targeted: bool, king_position: Position, player: Player) -> usize",
         "pre": "for _once in 0..1 {",
-        "regions": [{"start": r"^\s*for index in 0\.\.moves\.len\(\) \{", "end": ("block",), "inner": True}],
+        "regions": [{"start": r"^\s*for index in 0\.\.moves\.len\(\) \{", "end": ("block",), "inner": True, "must_not": [r"\bfor\b", r"\bwhile\b", r"\bloop\b"]}],
         "post": "}\nkeep_index }",
         "drops": "the `for index in 0..moves.len()` header, the four `let` lines before it (player, king_position, is_king_targeted, keep_index) "
                  "and moves.truncate(keep_index) after it",
